@@ -164,10 +164,7 @@ static int ch_op(const char* f, const char* op, const char* a1, const char* a2) 
   int is_send = !strcmp(op, "send");
   if (!is_send && strcmp(op, "recv")) return 0;
   chd_t* d = ch_by_name(a1);
-  if (!d) {
-    fprintf(stderr, "driver: unknown channel %s\n", a1);
-    exit(64);
-  }
+  if (!d) return 0; /* not one of our channels: leave the op to another extension */
   if (is_send) {
     void* v = val_ptr(a2);
     vrt_api("\"f\":\"%s\",\"ph\":\"call\",\"op\":\"send\",\"o\":\"%s\",\"v\":\"%s\"", f, a1, a2);
